@@ -665,3 +665,30 @@ Theorem C03_link_with_emphasis_instance :
      $"see <a href=" ++ [34%Z] ++ $"/s" ++ [34%Z] ++ $">the <em>new</em> and <strong>very good</strong> site</a>, ok").
 Proof. vm_compute. repeat split; reflexivity. Qed.
 Print Assumptions C03_link_with_emphasis_instance.
+
+(* an inline HTML TAG inside a sentence (Proofs/HtmlSentence.v): pre <name> post - the name a letter followed by letters, digits or hyphens.
+   WITH HtmlSpan among the span types (HtmlRenderer, MarkdownRenderer, MathJax) the tokens are the text, one HtmlSpan holding "<name>" as it
+   stands, the text: HtmlSpan.pattern evaluated exactly on its first alternative, AutoLink.pattern PROVED TO FAIL at the same "<" (after a
+   tag-like name no ":" follows wherever the bounded greedy scheme stops; the e-mail alternative meets no "@").  WITHOUT HtmlSpan (raw HTML
+   switched off, LaTeX, the default token set) nothing is found and everything stays ONE RawText, so the renderer's escaping sees the "<"
+   (C08: document text does not become markup) *)
+From Mistletoe Require Import Proofs.HtmlSentence.
+Theorem C03_html_span_in_sentence : forall types fn pre c0 run post,
+  html_spans types = true -> html_ok pre c0 run post = true ->
+  Inline.tokenize_inner types fn (pre ++ (60 :: c0 :: run ++ [62])%Z ++ post) = EmphSentence.raw_if pre ++ [HtmlSpan (60 :: c0 :: run ++ [62])%Z] ++ EmphSentence.raw_if post.
+Proof. exact html_span_in_sentence. Qed.
+Print Assumptions C03_html_span_in_sentence.
+
+Theorem C03_html_tag_without_html_spans : forall types fn pre c0 run post,
+  nohtml_spans types = true -> html_ok pre c0 run post = true ->
+  Inline.tokenize_inner types fn (pre ++ (60 :: c0 :: run ++ [62])%Z ++ post) = [RawText (pre ++ (60 :: c0 :: run ++ [62])%Z ++ post)].
+Proof. exact html_tag_without_html_spans. Qed.
+Print Assumptions C03_html_tag_without_html_spans.
+
+Theorem C03_html_span_hypotheses :
+  (html_ok ($"so ") 98 [] ($" bold") = true) /\ (html_ok [] 109 ($"y-widget2") ($".") = true) /\
+  (html_ok [] 49 [] [] = false) /\ (html_ok [] 98 ($" x") [] = false) /\ (html_ok [] 98 [] ($" me@ex.am") = false) /\
+  map (fun c => html_spans (cfg_span c)) [cfg_html; cfg_html_nohtml; cfg_markdown; cfg_latex; cfg_mathjax; cfg_default] = [true; false; true; false; true; false] /\
+  map (fun c => nohtml_spans (cfg_span c)) [cfg_html; cfg_html_nohtml; cfg_markdown; cfg_latex; cfg_mathjax; cfg_default] = [false; true; false; true; false; true].
+Proof. exact html_span_instance. Qed.
+Print Assumptions C03_html_span_hypotheses.
